@@ -1,14 +1,41 @@
 (* JsonRun.v — the single entry point of the C05 models for the generic runner:
-   (0 json-case) | (1 memfs-case) | (2 memseq-case). *)
+   (0 json-case) | (1 memfs-case) | (2 memseq-case) | (3 text-case). *)
 From Coq Require Import ZArith List.
 Import ListNotations.
-From PG Require Import Common.Tr Model.Json Model.MemFS Model.MemSeq.
+From PG Require Import Common.Tr Model.Json Model.JsonText Model.MemFS Model.MemSeq.
 Local Open Scope Z_scope.
+
+(* the text layer with finite floats left out: they are never printed by the cases of kinds 7 and 8 *)
+Definition no_float_repr (m e : Z) : str := [].
+Definition no_float_tok (t : str) : option fl := None.
+(* (3 (qbits classtab 7 pv))  -> the text of to_json_str           (string as code points)
+   (3 (qbits classtab 8 text)) -> from_json_str(text)               (result) *)
+Definition run_text (c : tr) : tr :=
+  match c with
+  | L [qb; ctb; I kind; payload] =>
+      match d_quirks qb, d_classtab ctb with
+      | Some q, Some ct =>
+          match kind with
+          | 7 => match d_pv payload with
+                 | Some v => estr (to_str str (dumps no_float_repr []) v)
+                 | None => ebad
+                 end
+          | 8 => match dstr payload with
+                 | Some t => e_result e_pv (of_str str (loads no_float_tok) q ct t)
+                 | None => ebad
+                 end
+          | _ => ebad
+          end
+      | _, _ => ebad
+      end
+  | _ => ebad
+  end.
 
 Definition run (c : tr) : tr :=
   match c with
   | L [I 0; x] => run_json x
   | L [I 1; x] => run_memfs x
   | L [I 2; x] => run_memseq x
+  | L [I 3; x] => run_text x
   | _ => ebad
   end.
